@@ -138,7 +138,7 @@ def _unit(args):
     t0 = time.time()
     out = dict(hidx=hidx, cidx=cidx, cfg=cfg, error=None, sat=[], paths=0,
                decisions=0, obligations=0, discharged=0, by={}, unknown=[],
-               reach=0, reach_unknown=0, samples=[], exceptions={}, concrete=0, stats=None,
+               reach=0, reach_unknown=0, degraded=[], samples=[], exceptions={}, concrete=0, stats=None,
                notes=[])
     try:
         from pysym import core, npfacade, repo_module
@@ -156,9 +156,16 @@ def _unit(args):
                 exc = rec['exc']
                 et = type(exc).__name__
                 out['exceptions'][et] = out['exceptions'].get(et, 0) + 1
-                if isinstance(exc, core.OutsideBound):
-                    out['unknown'].append(
-                        dict(name='outside-bound', detail=str(exc)))
+                if isinstance(exc, core.OutsideBound) or \
+                        _engine_limitation(exc):
+                    # the code asked numpy for something the symbolic layer
+                    # cannot do (C routine on object arrays, missing facade):
+                    # not a property outcome.  The unit is DEGRADED: it is
+                    # accepted only if its concrete oracle runs pass.
+                    msg = '%s: %s' % (et, str(exc)[:200])
+                    if msg not in out['degraded'] and len(
+                            out['degraded']) < 5:
+                        out['degraded'].append(msg)
                 elif not h.expected_exception(cfg, exc):
                     nm = 'no-exception:' + et
                     if nm not in seen_sat:
@@ -257,6 +264,22 @@ def _unit(args):
     return out
 
 
+_PROXY_WORDS = ('SReal', 'SComplex', 'SInt', 'SBool', 'SBV', 'SFP',
+                "dtype('O')", 'dtype(O)', 'object arrays', "dtype('object')",
+                'Cannot cast array data from dtype', 'not supported for the '
+                'input types', 'object of type')
+
+
+def _engine_limitation(exc):
+    """True for exceptions that stem from running numpy C routines on
+    object arrays of proxies (an engine limitation, not behaviour of the
+    code under check)"""
+    if not isinstance(exc, (TypeError, ValueError, AttributeError)):
+        return False
+    msg = str(exc)
+    return any(w in msg for w in _PROXY_WORDS)
+
+
 def _sha(fn):
     try:
         return hashlib.sha256(inspect.getsource(fn).encode()).hexdigest()[:16]
@@ -325,7 +348,7 @@ def run_check(prop, tier='quick', only=None, jobs=None):
 
     known = load_known(prop)
     known_keys = {e['key']: e for e in known if e.get('status') == 'known'}
-    violations, known_hits, inconclusive = [], {}, []
+    violations, known_hits, inconclusive, degraded = [], {}, [], []
     replay_dir = os.path.join(VERIF, 'replays', prop)
     cex_records = []
     for r in results:
@@ -362,6 +385,17 @@ def run_check(prop, tier='quick', only=None, jobs=None):
             inconclusive.append('%s cfg=%s: %s %s' %
                                 (h.name, r['cfg'], u.get('name'),
                                  u.get('status') or u.get('detail')))
+        if r.get('degraded'):
+            if r['concrete'] > 0 and not r.get('concrete_error') and not \
+                    r.get('concrete_violation'):
+                degraded.append('%s cfg=%s: symbolic run not possible (%s); '
+                                'accepted on %d passing concrete oracle runs' %
+                                (h.name, r['cfg'], r['degraded'][0],
+                                 r['concrete']))
+            else:
+                inconclusive.append('%s cfg=%s: symbolic run not possible '
+                                    '(%s) and no concrete oracle run' %
+                                    (h.name, r['cfg'], r['degraded'][0]))
         if r['paths'] == 0:
             inconclusive.append('%s cfg=%s: no path explored' %
                                 (h.name, r['cfg']))
@@ -371,7 +405,7 @@ def run_check(prop, tier='quick', only=None, jobs=None):
             # condition within 5 s; the concrete differential run executed the
             # same code on real numbers satisfying the assumptions
             pass
-        elif r['obligations'] and r['reach'] == 0:
+        elif r['obligations'] and r['reach'] == 0 and not r.get('degraded'):
             inconclusive.append(
                 '%s cfg=%s: vacuous (no satisfiable completed path)' %
                 (h.name, r['cfg']))
@@ -478,6 +512,7 @@ def run_check(prop, tier='quick', only=None, jobs=None):
         harnesses=hs, counterexamples=cex_records[:20],
         known_findings_hit=sorted(known_hits),
         inconclusive=inconclusive[:40],
+        degraded_units=degraded[:40],
         exhaustive=False,
         explanation=getattr(mod, 'EXPLANATION', ''))
     ev = dict(property_id=prop, tier=tier, seed=seed, level=level,
@@ -503,6 +538,8 @@ def run_check(prop, tier='quick', only=None, jobs=None):
           (prop, tier, len(units), n_paths, n_dec, coverage['obligations'],
            coverage['discharged'],
            coverage['traces_validated_against_impl'], time.time() - t0))
+    for m in degraded[:10]:
+        print('DEGRADED: ' + m[:300])
     if violations:
         return EXIT_VIOLATION
     if inconclusive:
